@@ -1,6 +1,9 @@
 SPECIFICATION Spec
-CONSTANT N = 5
+CONSTANTS
+  N = 5
+  UseBaseList = TRUE
 INVARIANT WellFormed
 INVARIANT LocalPrecedence
 INVARIANT Monotone
+INVARIANT FirstBaseNext
 INVARIANT ChainsLinearise
